@@ -332,14 +332,36 @@ void vf::run_case(Src &s, Ctx &c)
             auto rrt = std::make_shared<og::RRT>(si);
             rrt->setProblemDefinition(pdef);
             rrt->setup();
-            ob::PlannerTerminationCondition ptc = ob::plannerNonTerminatingCondition();
-            std::atomic<bool> returned{false};
+            // the condition the planner polls: evaluated directly, or by the library's own helper thread every `period` seconds
+            // (all of them can only become true through terminate(): their own predicate / time budget never fires in this case)
+            static const char *kindName[] = {"non-terminating", "direct-function", "periodic-function", "timed-with-interval", "or-of-direct-and-periodic"};
+            const size_t kind = s.weighted({2, 1, 3, 3, 2});
+            const double period = 0.001 * s.in(1, 40);
+            // everything the solver thread touches lives on the heap and is deliberately leaked if that thread turns out to be stuck
+            // (the failure is reported by unwinding this frame; a stuck thread must not be left with dangling references)
+            struct Shared
+            {
+                std::shared_ptr<og::RRT> rrt;
+                ob::PlannerTerminationCondition never{[] { return false; }};
+                ob::PlannerTerminationCondition ptc{ob::plannerNonTerminatingCondition()};
+                std::atomic<bool> returned{false};
+                std::atomic<int> notSticky{0};
+            };
+            auto *sh = new Shared;
+            sh->rrt = rrt;
+            sh->ptc = kind == 0 ? ob::plannerNonTerminatingCondition() :
+                      kind == 1 ? sh->never :
+                      kind == 2 ? ob::PlannerTerminationCondition([] { return false; }, period) :
+                      kind == 3 ? ob::timedPlannerTerminationCondition(3600.0, period) :
+                                  ob::plannerOrTerminationCondition(sh->never, ob::PlannerTerminationCondition([] { return false; }, period));
+            c.count(std::string("terminate-kind:") + kindName[kind]);
+            c.note(" condition kind %s, period %.3f s\n", kindName[kind], period);
             std::thread solver(
-                [&]()
+                [&enter, &leave, sh]()
                 {
                     enter();
-                    rrt->solve(ptc);
-                    returned = true;
+                    sh->rrt->solve(sh->ptc);
+                    sh->returned = true;
                     leave();
                 });
             std::vector<std::thread> th;
@@ -350,23 +372,31 @@ void vf::run_case(Src &s, Ctx &c)
                     {
                         enter();
                         std::this_thread::sleep_for(std::chrono::microseconds(delayUs + 50 * t));
-                        ptc.terminate();
-                        (void)ptc.eval();
+                        sh->ptc.terminate();
+                        // once terminate() has returned, every evaluation - here, in the same thread - must answer true
+                        if (!sh->ptc.eval())
+                            sh->notSticky++;
                         leave();
                     });
             for (auto &x : th)
                 x.join();
             // bounded wait: the planner must come back after terminate()
-            for (int k = 0; k < 20000 && !returned.load(); ++k)
+            const int ns = sh->notSticky.load();
+            for (int k = 0; k < (ns > 0 ? 2000 : 20000) && !sh->returned.load(); ++k)
                 std::this_thread::sleep_for(std::chrono::milliseconds(1));
-            bool ok = returned.load();
-            if (!ok)
+            bool ok = sh->returned.load();
+            if (ok)
             {
-                // do not join a stuck thread: report and leave through _exit in the runner
-                solver.detach();
-                c.fail("C19/terminate-ignored", "RRT did not return within 20 s after terminate() was called from another thread");
+                solver.join();
+                delete sh;
             }
-            solver.join();
+            else
+                solver.detach();  // never join a stuck thread; `sh` stays alive for it
+            if (ns > 0)
+                c.fail("C19/terminate-not-visible", vf::fmt("%s condition: eval() answered false in %d thread(s) right after their own terminate() call had returned%s",
+                                                            kindName[kind], ns, ok ? "" : "; the planner polling it did not return either"));
+            if (!ok)
+                c.fail("C19/terminate-ignored", vf::fmt("RRT did not return within 20 s after terminate() was called from another thread (%s condition)", kindName[kind]));
             break;
         }
         default:
